@@ -1,53 +1,43 @@
-(* C10 — proofs about the symbol names (Mod/Mangle.v). *)
+(* C10 — proofs about the symbol names (Mod/Mangle.v): the escaping of module paths is injective. *)
 From Coq Require Import List NArith Bool Lia.
 Import ListNotations.
 From DDP Require Import Mod.Mangle.
 
-Definition plain (p : str) : Prop := forall c, In c p -> c <> c_under /\ c <> c_colon.
-
-Lemma flat_char_inj a b : a <> c_under -> a <> c_colon -> b <> c_under -> b <> c_colon -> flat_char a = flat_char b -> a = b.
+(* every '_' of the output starts a two-character escape, so the first character of the input can be read back *)
+Lemma esc_char_head a b r1 r2 : esc_char a ++ r1 = esc_char b ++ r2 -> a = b /\ r1 = r2.
 Proof.
-  unfold flat_char. intros Ha1 Ha2 Hb1 Hb2.
-  destruct (N.eqb_spec a c_slash) as [->|Has]; destruct (N.eqb_spec b c_slash) as [->|Hbs]; cbn [orb]; auto.
-  - destruct (N.eqb_spec b c_colon); [contradiction|]. intros H. congruence.
-  - destruct (N.eqb_spec a c_colon); [contradiction|]. intros H. congruence.
-  - destruct (N.eqb_spec a c_colon); [contradiction|]. destruct (N.eqb_spec b c_colon); [contradiction|]. auto.
+  unfold esc_char.
+  destruct (N.eqb_spec a c_under) as [->|Ha1]; [|destruct (N.eqb_spec a c_slash) as [->|Ha2]; [|destruct (N.eqb_spec a c_colon) as [->|Ha3]]];
+  (destruct (N.eqb_spec b c_under) as [->|Hb1]; [|destruct (N.eqb_spec b c_slash) as [->|Hb2]; [|destruct (N.eqb_spec b c_colon) as [->|Hb3]]]);
+  cbn [app]; intros E; injection E; intros; subst; try discriminate; try congruence; auto.
 Qed.
 
-(* paths without '_' and ':' keep distinct module names *)
-Theorem hashable_injective_on_plain p1 p2 : plain p1 -> plain p2 -> hashable p1 = hashable p2 -> p1 = p2.
+Lemma esc_injective p1 : forall p2, flat_map esc_char p1 = flat_map esc_char p2 -> p1 = p2.
 Proof.
-  unfold hashable. intros H1 H2 E. apply app_inv_head in E. revert p2 H2 E.
-  induction p1 as [|a p1 IH]; intros [|b p2] H2 E; cbn [map] in E; try discriminate; [reflexivity|].
-  injection E as Eh Et. f_equal.
-  - destruct (H1 a (or_introl eq_refl)), (H2 b (or_introl eq_refl)). apply flat_char_inj; auto.
-  - apply IH; auto; intros c Hc; [apply H1|apply H2]; right; exact Hc.
+  induction p1 as [|a p1 IH]; intros [|b p2] E; cbn [flat_map] in E.
+  - reflexivity.
+  - exfalso. unfold esc_char in E. destruct (N.eqb b c_under), (N.eqb b c_slash), (N.eqb b c_colon); discriminate.
+  - exfalso. unfold esc_char in E. destruct (N.eqb a c_under), (N.eqb a c_slash), (N.eqb a c_colon); discriminate.
+  - apply esc_char_head in E. destruct E as [-> E]. f_equal. apply IH. exact E.
 Qed.
+
+Theorem hashable_injective p1 p2 : hashable p1 = hashable p2 -> p1 = p2.
+Proof. unfold hashable. intros E. apply app_inv_head in E. apply esc_injective. exact E. Qed.
+
+Theorem init_name_injective p1 p2 : init_name p1 = init_name p2 -> p1 = p2.
+Proof. unfold init_name. intros E. apply app_inv_tail in E. apply hashable_injective. exact E. Qed.
 
 Section WithHash.
   Variable hash : str -> str.
   Hypothesis hash_inj : forall a b, hash a = hash b -> a = b.
 
-  (* same-named declarations of modules with different flattened names get different symbols *)
-  Theorem mangled_distinct n p1 p2 : hashable p1 <> hashable p2 -> mangled hash n p1 <> mangled hash n p2.
-  Proof. unfold mangled. intros H E. injection E as E. apply H, hash_inj, E. Qed.
-
-  Theorem mangled_distinct_plain n p1 p2 : plain p1 -> plain p2 -> p1 <> p2 -> mangled hash n p1 <> mangled hash n p2.
-  Proof. intros H1 H2 Hne. apply mangled_distinct. intros E. apply Hne. apply hashable_injective_on_plain; auto. Qed.
+  (* same-named declarations of two different modules get different symbols *)
+  Theorem mangled_distinct n p1 p2 : p1 <> p2 -> mangled hash n p1 <> mangled hash n p2.
+  Proof. unfold mangled. intros H E. injection E as E. apply H, hashable_injective, hash_inj, E. Qed.
 End WithHash.
 
-(* "/d/x/y" and "/d/x_y" : two different module files, one flattened name *)
+(* the former collision: "/d/x/y" and "/d/x_y" *)
 Definition coll_a : str := [47; 100; 47; 120; 47; 121]%N.
 Definition coll_b : str := [47; 100; 47; 120; 95; 121]%N.
-
-Theorem mangle_collision :
-  coll_a <> coll_b /\ hashable coll_a = hashable coll_b /\ init_name coll_a = init_name coll_b /\
-  forall hash n, mangled hash n coll_a = mangled hash n coll_b.
-Proof.
-  split; [discriminate|]. split; [vm_compute; reflexivity|]. split; [vm_compute; reflexivity|].
-  intros hash n. unfold mangled. replace (hashable coll_a) with (hashable coll_b) by (vm_compute; reflexivity). reflexivity.
-Qed.
-
-(* non-vacuity of the partial theorem *)
-Example plain_paths_exist : plain [47; 100; 47; 120; 47; 121]%N /\ plain [47; 100; 47; 122]%N.
-Proof. split; intros c Hc; cbn in Hc; repeat (destruct Hc as [<-|Hc]; [split; discriminate|]); destruct Hc. Qed.
+Example former_collision_resolved : coll_a <> coll_b /\ hashable coll_a <> hashable coll_b /\ init_name coll_a <> init_name coll_b.
+Proof. repeat split; vm_compute; discriminate. Qed.
